@@ -249,6 +249,7 @@ func init() {
 			rules.PI(rc, 50)
 			rules.K12(rc, 80)
 			rules.MZ(rc)
+			rules.L0(rc, func(fn string) bool { return !strings.Contains(fn, "prepData") }) // the reducers materialise on IsMaterializable
 		},
 	})
 	register(&Property{
